@@ -8,7 +8,7 @@ print(p.stdout.split('\n')[0])
 from pyvc import extract
 n = 0
 for f in sorted(os.listdir('/verif/contracts')):
-    if f.endswith('.py') and f != '__init__.py':
+    if f.endswith('.py') and f not in ('__init__.py', 'frames.py', '_records.py'):
         m = importlib.import_module('contracts.' + f[:-3])
         for q, d in m.C.items():
             if not d.get('external'):
